@@ -23,6 +23,14 @@
 //!   refresh G T             refresh-token exchange for grant G (always the newest refresh token)
 //!   revoke K T / revokeo2 G T / purge P T   `Modify::Removed` / `Purged` on the session attributes
 //!   touch P T               a modify of an unrelated attribute (time passes, the plugin runs)
+//!   mmod SET KIND T         ONE `internal_modify` whose filter is `uuid=P1 OR uuid=P2 …` (SET = the account
+//!                           digits, e.g. `12`, `123`) with one modlist for all of them: KIND = delprim |
+//!                           setprim (the same new credential on every account) | touch | purge
+//!   batch SPEC T            ONE `internal_batch_modify` with a modlist per entry: SPEC = `P:KIND,P:KIND…`,
+//!                           KIND = delprim | setprim | touch | purge | addpk<S> | delpk<S> | addapk<S> | delapk<S>
+//!                           The plugin works entry by entry, so the model's prediction for a multi-entry
+//!                           operation is each entry's own step (`w a ct cid …`, the same `ct` and `cid` for
+//!                           all of them, in candidate order = entry id = creation order = account number).
 //!   present G WHEN HOW      present OAuth2 access token G at WHEN (`grace:D` = iat+300 s+D ns,
 //!                           `exp:D`, `now:D`) through HOW = introspect | userinfo
 //!   presentuat K WHEN       present UAT K (`grace:D` | `now:D`)
@@ -38,7 +46,7 @@
 //!      O1  no login session that is not revoked names a credential id that is not among the
 //!          account's current credentials (primary, passkeys, attested passkeys, trust credential)
 //!          — checked on all accounts after every write, i.e. "in the same change";
-//!      O2  on the account just written: no OAuth2 session that is not revoked and was issued at
+//!      O2  on every account the operation wrote (all candidates of a multi-entry modify): no OAuth2 session that is not revoked and was issued at
 //!          least 300 s ago has a parent that is revoked or missing;
 //!      O3  an OAuth2 token accepted (introspect / userinfo / refresh) at or after iat + 300 s has
 //!          its parent login session on the account, not revoked, issued by a credential the
@@ -228,6 +236,8 @@ struct Outcome {
     failures: Vec<Failure>,
     hist: BTreeMap<String, u64>,
     cred_removed_revoked: u64,
+    /// sessions (login + OAuth2) revoked by the plugin in operations that wrote several entries
+    multi_revoked: u64,
     o2_swept: u64,
     o2_refused_orphan: u64,
     accepted_o2_past_grace: u64,
@@ -465,6 +475,25 @@ impl World {
         }
     }
 
+    /// One `internal_modify` over several entries: filter `uuid=u1 OR uuid=u2 …`, one modlist.
+    async fn modify_many(&mut self, t: u128, uuids: &[Uuid], ml: ModifyList<ModifyInvalid>) -> Result<(), String> {
+        let mut pw = self.idms.proxy_write(dur(t)).await.unwrap();
+        let f = Filter::new_ignore_hidden(FC::Or(uuids.iter().map(|u| FC::Eq(Attribute::Uuid, PartialValue::Uuid(*u))).collect()));
+        match pw.qs_write.internal_modify(&f, &ml) {
+            Ok(()) => pw.commit().map_err(|e| format!("commit:{e:?}")),
+            Err(e) => Err(format!("{e:?}")),
+        }
+    }
+
+    /// One `internal_batch_modify`: a modlist per entry.
+    async fn batch_modify(&mut self, t: u128, mods: Vec<(Uuid, ModifyList<ModifyInvalid>)>) -> Result<(), String> {
+        let mut pw = self.idms.proxy_write(dur(t)).await.unwrap();
+        match pw.qs_write.internal_batch_modify(mods.into_iter()) {
+            Ok(()) => pw.commit().map_err(|e| format!("commit:{e:?}")),
+            Err(e) => Err(format!("{e:?}")),
+        }
+    }
+
     fn auth_request() -> AuthorisationRequest {
         AuthorisationRequest {
             response_type: ResponseType::Code,
@@ -557,6 +586,48 @@ fn clone_asr(a: &AuthSessionRecord) -> AuthSessionRecord {
     }
 }
 
+/// What a committed operation wrote: the accounts (with "this account lost / changed a credential"),
+/// and whether it was an explicit OAuth2 session revocation.
+struct Wrote {
+    accts: Vec<(usize, bool)>,
+    explicit_revoke: bool,
+}
+fn one(a: usize, explicit_revoke: bool, cred_removal: bool) -> Wrote {
+    Wrote { accts: vec![(a, cred_removal)], explicit_revoke }
+}
+
+/// The part of a (multi-entry) operation that concerns one entry.
+#[derive(Clone, Debug, PartialEq)]
+enum Sub {
+    DelPrim,
+    SetPrim,
+    Touch,
+    Purge,
+    AddPk(u64),
+    DelPk(u64),
+    AddApk(u64),
+    DelApk(u64),
+}
+impl Sub {
+    fn parse(s: &str) -> Option<Sub> {
+        let slot = |p: &str| s[p.len()..].parse::<u64>().ok().map(|x| x % 3);
+        Some(match s {
+            "delprim" => Sub::DelPrim,
+            "setprim" => Sub::SetPrim,
+            "touch" => Sub::Touch,
+            "purge" => Sub::Purge,
+            _ if s.starts_with("addpk") => Sub::AddPk(slot("addpk")?),
+            _ if s.starts_with("delpk") => Sub::DelPk(slot("delpk")?),
+            _ if s.starts_with("addapk") => Sub::AddApk(slot("addapk")?),
+            _ if s.starts_with("delapk") => Sub::DelApk(slot("delapk")?),
+            _ => return None,
+        })
+    }
+    fn removes_credential(&self) -> bool {
+        matches!(self, Sub::DelPrim | Sub::SetPrim | Sub::DelPk(_) | Sub::DelApk(_))
+    }
+}
+
 struct Run<'a> {
     w: World,
     drv: &'a mut Driver,
@@ -579,21 +650,37 @@ impl<'a> Run<'a> {
         self.drv.ask(line)
     }
 
-    /// One model write on account index `a` at `t`.
-    fn mw(&mut self, a: usize, t: u128, rest: &str) {
-        // the change id of a write transaction is its timestamp, kept strictly increasing
-        // (`Cid::new_lamport`); revocations are stamped with it and the trim compares against it
+    /// The change id of the next write transaction at `t`: its timestamp, kept strictly increasing
+    /// (`Cid::new_lamport`); revocations are stamped with it and the trim compares against it.
+    fn next_cid(&mut self, t: u128) -> u128 {
         self.w.cid = std::cmp::max(t, self.w.cid + 1);
-        let cid = self.w.cid;
+        self.w.cid
+    }
+
+    /// One model write on account index `a` at `t` (a transaction that writes this one entry).
+    fn mw(&mut self, a: usize, t: u128, rest: &str) {
+        let cid = self.next_cid(t);
+        self.mw_cid(a, t, cid, rest);
+    }
+
+    /// One per-entry model step of the transaction `cid` at `t` (a multi-entry operation is a
+    /// sequence of these, one per candidate, all with the same `t` and `cid`).
+    fn mw_cid(&mut self, a: usize, t: u128, cid: u128, rest: &str) {
         let r = self.model(&format!("w {} {t} {cid} {rest}", a + 1));
         if r != "ok" {
             self.fail("impl-vs-model", "unclassified", "ok".into(), format!("model refused `{rest}`: {r}"));
         }
     }
 
-    /// State correspondence + state oracle after a write at `t` on account `written` (if any).
-    async fn after_write(&mut self, written: Option<usize>, t: u128, explicit_revoke: bool, cred_removal: bool) {
+    /// State correspondence + state oracle after a committed operation at `t` that wrote `wrote.accts`.
+    async fn after_write(&mut self, wrote: &Wrote, t: u128) {
+        let explicit_revoke = wrote.explicit_revoke;
+        let multi = wrote.accts.len() > 1;
+        // candidate order = account order: has an earlier candidate of this operation no session at all?
+        let mut sessionless_before = false;
         for a in 0..3usize {
+            let written = wrote.accts.iter().any(|x| x.0 == a);
+            let cred_removal = wrote.accts.iter().any(|x| x.0 == a && x.1);
             let real = self.w.read(a).await;
             let (rc, ru, ro) = (self.w.show_creds(&real), self.w.show_uats(&real), self.w.show_o2s(&real));
             let (mc, mut mu, mo) = (self.model(&format!("creds {}", a + 1)), self.model(&format!("uats {}", a + 1)), self.model(&format!("o2s {}", a + 1)));
@@ -629,8 +716,8 @@ impl<'a> Run<'a> {
                     }
                 }
             }
-            // ---- O2 (written account only): no stale orphan OAuth2 session ----------------------
-            if written == Some(a) {
+            // ---- O2 (every written account): no stale orphan OAuth2 session -------------------------
+            if written {
                 for (oid, (st, parent, issued)) in &real.o2s {
                     if *st == St::R || issued + ORACLE_GRACE > t {
                         continue;
@@ -651,16 +738,32 @@ impl<'a> Run<'a> {
             }
             // ---- what this write changed (non-triviality counters) --------------------------------
             let prev = self.prev[a].clone();
+            let mut revoked_now = 0u64;
             if let (Some(pm), Some(nm)) = (&prev.uats, &real.uats) {
                 for (sid, (st, _)) in nm {
-                    if *st == St::R && pm.get(sid).map(|x| x.0 != St::R).unwrap_or(false) && cred_removal && written == Some(a) {
-                        self.out.cred_removed_revoked += 1;
+                    if *st == St::R && pm.get(sid).map(|x| x.0 != St::R).unwrap_or(false) {
+                        revoked_now += 1;
+                        if cred_removal && written {
+                            self.out.cred_removed_revoked += 1;
+                        }
                     }
                 }
             }
             for (oid, (st, _, _)) in &real.o2s {
                 if *st == St::R && prev.o2s.get(oid).map(|x| x.0 != St::R).unwrap_or(false) && !explicit_revoke {
                     self.out.o2_swept += 1;
+                    revoked_now += 1;
+                }
+            }
+            if multi && written {
+                if revoked_now > 0 {
+                    self.out.multi_revoked += revoked_now;
+                    if sessionless_before {
+                        self.out.count("multi-entry:sessions-revoked-after-a-session-less-candidate");
+                    }
+                }
+                if real.uats.as_ref().map(|m| m.is_empty()).unwrap_or(true) && real.o2s.is_empty() {
+                    sessionless_before = true;
                 }
             }
             self.prev[a] = real;
@@ -797,13 +900,18 @@ impl<'a> Run<'a> {
     /// O5: the statement's "credential removed" includes its replacement — every login session on the
     /// account that was issued with the old primary credential must be revoked by this very write.
     async fn sync_primary(&mut self, a: usize, t: u128, tag: &str) {
+        let cid = self.next_cid(t);
+        self.sync_primary_cid(a, t, cid, tag).await;
+    }
+
+    async fn sync_primary_cid(&mut self, a: usize, t: u128, cid: u128, tag: &str) {
         let old = self.w.last_prim[a];
         let (prim, _, _, _) = self.w.read_creds(a).await;
         if let Some(p) = prim {
             self.w.last_prim[a] = p;
         }
         let arg = prim.map(|p| self.w.nat(p).to_string()).unwrap_or_else(|| "-".into());
-        self.mw(a, t, &format!("{tag} {arg}"));
+        self.mw_cid(a, t, cid, &format!("{tag} {arg}"));
         let re = self.w.read(a).await;
         if let Some(m) = &re.uats {
             for (sid, (st, cred)) in m {
@@ -821,7 +929,7 @@ impl<'a> Run<'a> {
     }
 
     /// Execute one op. Returns Some((written account, explicit oauth2 revoke, credential removal)) for a write.
-    async fn exec(&mut self, op: &str) -> Option<(Option<usize>, bool, bool)> {
+    async fn exec(&mut self, op: &str) -> Option<Wrote> {
         let f: Vec<&str> = op.split(' ').collect();
         let num = |i: usize| -> u128 { f[i].parse().unwrap() };
         let acct = |i: usize| -> usize { (f[i].parse::<usize>().unwrap() - 1) % 3 };
@@ -868,7 +976,7 @@ impl<'a> Run<'a> {
                     self.mw(s.acct, t, &format!("rec {sn} {cn} {e} {}", odt_ns(asr.issued_at)));
                 }
                 self.out.count(if ok { "op:record" } else { "op:record-failed" });
-                ok.then_some((Some(s.acct), false, false))
+                ok.then_some(one(s.acct, false, false))
             }
             "fab" => {
                 let (a, kind, slot, t) = (acct(1), f[2], num(3) as u64 % 3, num(5));
@@ -911,7 +1019,7 @@ impl<'a> Run<'a> {
                     self.mw(a, t, &format!("rec {sn} {cn} {} {t}", exp.map(|x| x.to_string()).unwrap_or_else(|| "-".into())));
                 }
                 self.out.count(&format!("op:fab-{kind}{}", if ok { "" } else { "-failed" }));
-                ok.then_some((Some(a), false, false))
+                ok.then_some(one(a, false, false))
             }
             "delprim" | "setprim" => {
                 let (a, t) = (acct(1), num(2));
@@ -931,7 +1039,7 @@ impl<'a> Run<'a> {
                     self.sync_primary(a, t, "prim").await;
                 }
                 self.out.count(&format!("op:{}{}", f[0], if r.is_ok() { "" } else { "-failed" }));
-                r.is_ok().then_some((Some(a), false, true))
+                r.is_ok().then_some(one(a, false, true))
             }
             "pwchange" => {
                 let (a, t) = (acct(1), num(2));
@@ -964,7 +1072,7 @@ impl<'a> Run<'a> {
                     }
                     Err(e) => self.out.count(&format!("op:pwchange-failed:{e}")),
                 }
-                res.is_ok().then_some((Some(a), false, true))
+                res.is_ok().then_some(one(a, false, true))
             }
             "addpk" | "delpk" | "addapk" | "delapk" => {
                 let (a, slot, t) = (acct(1), num(2) as u64 % 3, num(3));
@@ -995,7 +1103,7 @@ impl<'a> Run<'a> {
                     self.mw(a, t, &format!("{tag} {un}"));
                 }
                 self.out.count(&format!("op:{}{}", f[0], if r.is_ok() { "" } else { "-failed" }));
-                r.is_ok().then_some((Some(a), false, f[0].starts_with("del")))
+                r.is_ok().then_some(one(a, false, f[0].starts_with("del")))
             }
             "rego2c" => {
                 let t = num(2);
@@ -1009,7 +1117,7 @@ impl<'a> Run<'a> {
                     self.mw(a, t, &format!("o2c {arg}"));
                 }
                 self.out.count(if r.is_ok() { "op:rego2c" } else { "op:rego2c-failed" });
-                r.is_ok().then_some((Some(a), false, true))
+                r.is_ok().then_some(one(a, false, true))
             }
             "grant" => {
                 let with_tok: Vec<usize> = (0..self.w.sessions.len()).filter(|k| self.w.sessions[*k].jws.is_some()).collect();
@@ -1048,7 +1156,7 @@ impl<'a> Run<'a> {
                     Err(e) => self.out.count(&format!("op:grant-exchange-refused:{}", e.split(':').nth(1).unwrap_or(""))),
                 }
                 // the consent write (if any) happened even when the exchange was refused
-                (consent || exchanged).then_some((Some(s.acct), false, false))
+                (consent || exchanged).then_some(one(s.acct, false, false))
             }
             "fabgrant" => {
                 let (a, t) = (acct(1), num(4));
@@ -1075,7 +1183,7 @@ impl<'a> Run<'a> {
                     self.mw(a, t, &format!("grant {sn} {pn} {exp} {t}"));
                 }
                 self.out.count(if r.is_ok() { "op:fabgrant" } else { "op:fabgrant-failed" });
-                r.is_ok().then_some((Some(a), false, false))
+                r.is_ok().then_some(one(a, false, false))
             }
             "refresh" => {
                 let real: Vec<usize> = (0..self.w.grants.len()).filter(|g| self.w.grants[*g].refresh.is_some()).collect();
@@ -1125,7 +1233,7 @@ impl<'a> Run<'a> {
                         }
                         self.register_tokens(g.acct, Some(gi), resp, t).await;
                         self.out.count("op:refresh");
-                        Some((Some(g.acct), false, false))
+                        Some(one(g.acct, false, false))
                     }
                     Err(_) => {
                         self.out.count("op:refresh-refused");
@@ -1148,7 +1256,7 @@ impl<'a> Run<'a> {
                     self.mw(s.acct, t, &format!("rev {sn}"));
                 }
                 self.out.count(if r.is_ok() { "op:revoke" } else { "op:revoke-failed" });
-                r.is_ok().then_some((Some(s.acct), false, false))
+                r.is_ok().then_some(one(s.acct, false, false))
             }
             "revokeo2" => {
                 if self.w.grants.is_empty() {
@@ -1165,7 +1273,7 @@ impl<'a> Run<'a> {
                     self.mw(g.acct, t, &format!("revo2 {sn}"));
                 }
                 self.out.count(if r.is_ok() { "op:revokeo2" } else { "op:revokeo2-failed" });
-                r.is_ok().then_some((Some(g.acct), true, false))
+                r.is_ok().then_some(one(g.acct, true, false))
             }
             "purge" => {
                 let (a, t) = (acct(1), num(2));
@@ -1175,7 +1283,7 @@ impl<'a> Run<'a> {
                     self.mw(a, t, "purge");
                 }
                 self.out.count(if r.is_ok() { "op:purge" } else { "op:purge-failed" });
-                r.is_ok().then_some((Some(a), false, false))
+                r.is_ok().then_some(one(a, false, false))
             }
             "touch" => {
                 let (a, t) = (acct(1), num(2));
@@ -1186,7 +1294,112 @@ impl<'a> Run<'a> {
                     self.mw(a, t, "touch");
                 }
                 self.out.count(if r.is_ok() { "op:touch" } else { "op:touch-failed" });
-                r.is_ok().then_some((Some(a), false, false))
+                r.is_ok().then_some(one(a, false, false))
+            }
+            "mmod" | "batch" => {
+                let t = if f[0] == "mmod" { num(3) } else { num(2) };
+                self.w.now = t;
+                // (account, its part of the operation), in candidate order
+                let mut subs: Vec<(usize, Sub)> = vec![];
+                if f[0] == "mmod" {
+                    let kind = Sub::parse(f[2]).filter(|k| matches!(k, Sub::DelPrim | Sub::SetPrim | Sub::Touch | Sub::Purge)).unwrap_or_else(|| panic!("bad op {op}"));
+                    for c in f[1].chars() {
+                        let a = (c.to_digit(10).unwrap_or_else(|| panic!("bad op {op}")) as usize + 2) % 3;
+                        if !subs.iter().any(|x| x.0 == a) {
+                            subs.push((a, kind.clone()));
+                        }
+                    }
+                } else {
+                    for part in f[1].split(',') {
+                        let (pa, k) = part.split_once(':').unwrap_or_else(|| panic!("bad op {op}"));
+                        let a = (pa.parse::<usize>().unwrap() + 2) % 3;
+                        if !subs.iter().any(|x| x.0 == a) {
+                            subs.push((a, Sub::parse(k).unwrap_or_else(|| panic!("bad op {op}"))));
+                        }
+                    }
+                }
+                subs.sort_by_key(|x| x.0);
+                if subs.is_empty() {
+                    return None;
+                }
+                // one new primary credential for the whole operation (`mmod … setprim` puts the very same
+                // value, hence the same credential id, on every account)
+                let new_pw = subs.iter().find(|x| x.1 == Sub::SetPrim).map(|x| self.w.pw[x.0].map(|i| 1 - i).unwrap_or(0));
+                let new_cred = new_pw.map(|i| Value::new_credential("primary", cred_password(PWS[i], false).unwrap()));
+                let modlist = |a: usize, k: &Sub| -> ModifyList<ModifyInvalid> {
+                    match k {
+                        Sub::DelPrim => ModifyList::new_purge(Attribute::PrimaryCredential),
+                        Sub::SetPrim => ModifyList::new_purge_and_set(Attribute::PrimaryCredential, new_cred.clone().unwrap()),
+                        Sub::Touch => ModifyList::new_purge_and_set(Attribute::Description, Value::new_utf8s(&format!("touched at {t}"))),
+                        Sub::Purge => ModifyList::new_purge(Attribute::UserAuthTokenSession),
+                        Sub::AddPk(s) => ModifyList::new_list(vec![Modify::Present(
+                            Attribute::PassKeys,
+                            Value::Passkey(u_pk(a, *s), format!("pk{s}"), serde_json::from_str(PASSKEY_JSON[*s as usize % PASSKEY_JSON.len()]).expect("passkey fixture")),
+                        )]),
+                        Sub::AddApk(s) => ModifyList::new_list(vec![Modify::Present(
+                            Attribute::AttestedPasskeys,
+                            Value::AttestedPasskey(u_apk(a, *s), format!("apk{s}"), serde_json::from_str(ATTESTED_PASSKEY_JSON[*s as usize % ATTESTED_PASSKEY_JSON.len()]).expect("attested passkey fixture")),
+                        )]),
+                        Sub::DelPk(s) => ModifyList::new_list(vec![Modify::Removed(Attribute::PassKeys, PartialValue::Passkey(u_pk(a, *s)))]),
+                        Sub::DelApk(s) => ModifyList::new_list(vec![Modify::Removed(Attribute::AttestedPasskeys, PartialValue::AttestedPasskey(u_apk(a, *s)))]),
+                    }
+                };
+                let r = if f[0] == "mmod" {
+                    let uuids: Vec<Uuid> = subs.iter().map(|x| self.w.uuids[x.0]).collect();
+                    let ml = modlist(subs[0].0, &subs[0].1);
+                    self.w.modify_many(t, &uuids, ml).await
+                } else {
+                    let mods: Vec<(Uuid, ModifyList<ModifyInvalid>)> = subs.iter().map(|(a, k)| (self.w.uuids[*a], modlist(*a, k))).collect();
+                    self.w.batch_modify(t, mods).await
+                };
+                self.out.count(&format!("op:{}-{}-entries{}", f[0], subs.len(), if r.is_ok() { "" } else { "-failed" }));
+                if r.is_err() {
+                    return None;
+                }
+                // the model: each candidate's own step, same instant and change id
+                let cid = self.next_cid(t);
+                for (a, k) in &subs {
+                    let a = *a;
+                    match k {
+                        Sub::DelPrim => {
+                            self.w.pw[a] = None;
+                            self.sync_primary_cid(a, t, cid, "prim").await;
+                        }
+                        Sub::SetPrim => {
+                            self.w.pw[a] = new_pw;
+                            self.sync_primary_cid(a, t, cid, "prim").await;
+                        }
+                        Sub::Touch => self.mw_cid(a, t, cid, "touch"),
+                        Sub::Purge => self.mw_cid(a, t, cid, "purge"),
+                        Sub::AddPk(s) => {
+                            let un = self.w.nat(u_pk(a, *s));
+                            self.mw_cid(a, t, cid, &format!("pk+ {un}"));
+                        }
+                        Sub::DelPk(s) => {
+                            let un = self.w.nat(u_pk(a, *s));
+                            self.mw_cid(a, t, cid, &format!("pk- {un}"));
+                        }
+                        Sub::AddApk(s) => {
+                            let un = self.w.nat(u_apk(a, *s));
+                            self.mw_cid(a, t, cid, &format!("apk+ {un}"));
+                        }
+                        Sub::DelApk(s) => {
+                            let un = self.w.nat(u_apk(a, *s));
+                            self.mw_cid(a, t, cid, &format!("apk- {un}"));
+                        }
+                    }
+                    self.out.count(&format!("multi-entry-step:{}", match k {
+                        Sub::DelPrim => "delprim",
+                        Sub::SetPrim => "setprim",
+                        Sub::Touch => "touch",
+                        Sub::Purge => "purge",
+                        Sub::AddPk(_) => "addpk",
+                        Sub::DelPk(_) => "delpk",
+                        Sub::AddApk(_) => "addapk",
+                        Sub::DelApk(_) => "delapk",
+                    }));
+                }
+                Some(Wrote { accts: subs.iter().map(|(a, k)| (*a, k.removes_credential())).collect(), explicit_revoke: false })
             }
             "present" => {
                 if self.w.toks.is_empty() {
@@ -1264,12 +1477,12 @@ async fn run_history(drv: &mut Driver, ops: &[String]) -> Outcome {
         }
         run.prev[a] = real;
     }
-    run.after_write(None, T0 - DAY, false, false).await;
+    run.after_write(&Wrote { accts: vec![], explicit_revoke: false }, T0 - DAY).await;
     for (i, op) in ops.iter().enumerate() {
         run.at = i;
-        if let Some((written, explicit_revoke, cred_removal)) = run.exec(op).await {
+        if let Some(wrote) = run.exec(op).await {
             let now = run.w.now;
-            run.after_write(written, now, explicit_revoke, cred_removal).await;
+            run.after_write(&wrote, now).await;
             run.present_all(now).await;
         }
     }
@@ -1279,16 +1492,56 @@ async fn run_history(drv: &mut Driver, ops: &[String]) -> Outcome {
 /// Random history.  `interesting` collects instants at which a comparison of the plugin or of the
 /// token test flips (grace end of every OAuth2 session / token, expiry of fabricated sessions);
 /// time steps often land on one of them −1 / 0 / +1 ns.
+/// A multi-entry operation: the credential-removing / touching modify applied to a SET of accounts at
+/// once (`mmod` = one modlist under an OR filter, `batch` = `internal_batch_modify`).
+fn gen_multi(r: &mut Rng, t: u128) -> String {
+    let set = *r.pick(&["12", "13", "23", "123", "123"]);
+    if r.chance(3, 5) {
+        let kind = *r.pick(&["delprim", "delprim", "setprim", "touch", "touch", "purge"]);
+        format!("mmod {set} {kind} {t}")
+    } else {
+        let parts: Vec<String> = set
+            .chars()
+            .map(|c| {
+                let k = match r.below(10) {
+                    0..=2 => "delprim".to_string(),
+                    3 => "setprim".to_string(),
+                    4..=5 => "touch".to_string(),
+                    6 => format!("delpk{}", r.below(3)),
+                    7 => format!("delapk{}", r.below(3)),
+                    8 => format!("{}{}", r.pick(&["addpk", "addapk"]), r.below(3)),
+                    _ => "purge".to_string(),
+                };
+                format!("{c}:{k}")
+            })
+            .collect();
+        format!("batch {} {t}", parts.join(","))
+    }
+}
+
 fn gen_history(r: &mut Rng, len: usize, bias: bool) -> Vec<String> {
     let mut ops: Vec<String> = vec![];
     let mut t = T0 + r.below(1000) as u128 * NS + if r.chance(1, 2) { r.below(NS as u64) as u128 } else { 0 };
     let mut interesting: Vec<u128> = vec![];
     let d1: &[i128] = &[-1, 0, 1];
     let p = |r: &mut Rng| -> u64 { *r.pick(&[1u64, 1, 2, 3]) };
-    // a start that gives the rest something to work on
-    ops.push(format!("login 1 {t}"));
+    // a start that gives the rest something to work on (which account logs in first decides which
+    // entries of a later multi-entry operation are session-less)
+    let first = p(r);
+    ops.push(format!("login {first} {t}"));
     ops.push(format!("record 0 {}", t + 1));
     t += 2;
+    // search mode: sessions on a later account while an earlier one has none
+    if bias && r.chance(1, 2) {
+        let who = *r.pick(&[2u64, 3, 3]);
+        let kind = *r.pick(&["prim", "prim", "pk"]);
+        if kind == "pk" {
+            ops.push(format!("addpk {who} 0 {t}"));
+        }
+        ops.push(format!("fab {who} {kind} 0 {} {}", r.pick(&["-", "400", "3600"]), t + 1));
+        t += 2;
+    }
+    let multi_pct = if bias { 30 } else { 8 };
     while ops.len() < len {
         // time
         let later: Vec<u128> = interesting.iter().copied().filter(|x| *x > t + 1).collect();
@@ -1308,6 +1561,10 @@ fn gen_history(r: &mut Rng, len: usize, bias: bool) -> Vec<String> {
                 8 => r.below(600) as u128 * NS,
                 _ => r.below(5) as u128 * NS,
             };
+        }
+        if r.chance(multi_pct, 100) {
+            ops.push(gen_multi(r, t));
+            continue;
         }
         let op = match r.below(100) {
             0..=9 => format!("login {} {t}", p(r)),
@@ -1450,6 +1707,45 @@ fn scripted() -> Vec<(String, Vec<String>)> {
         format!("touch 1 {}", t + 400 * NS), "present 0 grace:0 introspect".into(), "present 0 exp:-1 userinfo".into(), "present 0 exp:0 introspect".into(),
         format!("refresh 0 {}", t + 800 * NS), format!("purge 1 {}", t + 900 * NS), format!("touch 1 {}", t + DAY + NS),
     ])));
+    // ---- operations that write SEVERAL entries: the plugin must treat every candidate ---------------
+    // the credential of two accounts removed by ONE modify (filter uuid=A OR uuid=B); A never logged in,
+    // B holds a real login session (+ an OAuth2 grant under it) — in both creation orders
+    for (name, a, b) in [("multi-sessionless-first", 1, 2), ("multi-sessionless-second", 2, 1)] {
+        let set = if a < b { format!("{a}{b}") } else { format!("{b}{a}") };
+        out.push((name.into(), s(&[
+            format!("login {b} {t}"), format!("record 0 {}", t + 1), format!("grant 0 {}", t + 2),
+            format!("mmod {set} delprim {}", t + NS), "present 0 now:1 introspect".into(), "presentuat 0 now:1".into(),
+            format!("mmod {set} touch {}", t + 2 + g),
+        ])));
+    }
+    // three entries, the session-less one first / in the middle / last; the other two hold sessions
+    for (name, empty) in [("multi-3-sessionless-first", 1u64), ("multi-3-sessionless-middle", 2), ("multi-3-sessionless-last", 3)] {
+        let with: Vec<u64> = (1..=3u64).filter(|x| *x != empty).collect();
+        out.push((name.into(), s(&[
+            format!("fab {} prim 0 - {t}", with[0]), format!("fab {} prim 0 3600 {}", with[1], t + 1), format!("fabgrant {} s0 57600 {}", with[1], t + 2),
+            format!("mmod 123 touch {}", t + 3), format!("mmod 123 setprim {}", t + NS), format!("mmod 123 touch {}", t + 2 + g),
+        ])));
+    }
+    // batch modify, a modlist per entry: 1 (no session) is touched, 2 loses its primary credential, 3 loses a passkey
+    out.push(("multi-batch".into(), s(&[
+        format!("addpk 3 0 {t}"), format!("addpk 3 1 {t}"), format!("fab 3 pk 0 - {}", t + 1), format!("fab 3 pk 1 - {}", t + 1), format!("fab 3 prim 0 - {}", t + 1),
+        format!("login 2 {}", t + 2), format!("record 0 {}", t + 3), format!("fabgrant 3 s0 57600 {}", t + 4),
+        format!("batch 1:touch,2:delprim,3:delpk0 {}", t + NS), "presentuat 3 now:1".into(),
+        format!("batch 1:delprim,2:touch,3:touch {}", t + 4 + g), format!("batch 2:setprim,3:delpk1 {}", t + 5 + g),
+    ])));
+    // expiry: two accounts with sessions (and one without), one modify touching all after one session's
+    // expiry, then after the other's; the OAuth2 session under the expired parent goes in the same write
+    out.push(("multi-expiry".into(), s(&[
+        format!("fab 1 prim 0 400 {t}"), format!("fab 3 prim 0 600 {}", t + 1), format!("fabgrant 3 s0 57600 {}", t + 2),
+        format!("mmod 123 touch {}", t + 400 * NS - 1), format!("mmod 123 touch {}", t + 400 * NS),
+        format!("mmod 23 touch {}", t + 1 + 600 * NS - 1), format!("mmod 23 touch {}", t + 1 + 600 * NS),
+    ])));
+    // orphan: the parent of account 3's OAuth2 session is logged out; the write that passes the grace end
+    // covers the session-less account 1 as well
+    out.push(("multi-orphan".into(), s(&[
+        format!("fab 3 prim 0 - {t}"), format!("fabgrant 3 s0 57600 {}", t + 1), format!("fab 2 prim 0 - {}", t + 2), format!("revoke 0 {}", t + NS),
+        format!("mmod 13 touch {}", t + 1 + g - 1), format!("batch 1:touch,3:touch {}", t + 1 + g),
+    ])));
     out
 }
 
@@ -1463,7 +1759,8 @@ fn main() {
         "session-plugin",
         "scripted and random histories (password logins, held-back and fabricated session records for primary / passkey / attested passkey / trust \
          credentials, credential purge / replace / credential-update commit / passkey add+remove / trust credential regeneration, OAuth2 code grants, \
-         fabricated OAuth2 sessions with live / revoked / unknown / no parent, refresh, logout, session purge, unrelated writes, time steps landing on \
+         fabricated OAuth2 sessions with live / revoked / unknown / no parent, refresh, logout, session purge, unrelated writes, the same modifies applied to \
+         SEVERAL accounts by one internal_modify (OR filter) or one internal_batch_modify (a modlist per entry), time steps landing on \
          grace and expiry boundaries ±1 ns) on a fresh real IdmServer each; after every write the three accounts are compared with the model and every \
          issued token is presented; non-trivial = a credential removal revoked at least one live session AND an orphaned OAuth2 session was swept or \
          its token refused past the grace window; distinct = distinct op list",
@@ -1475,12 +1772,16 @@ fn main() {
         let ops: Vec<String> = v["input"]["ops"].as_array().expect("replay input.ops").iter().map(|x| x.as_str().unwrap().to_string()).collect();
         histories.push(("replay".into(), ops));
     } else {
-        histories.extend(scripted());
+        // `C36_STREAMS=random` (diagnostic, used with the seeded-change bench): only the random histories
+        let only_random = std::env::var("C36_STREAMS").map(|v| v == "random").unwrap_or(false);
+        if !only_random {
+            histories.extend(scripted());
+        }
         // regression corpus (witnesses of recorded findings), replayed on every run
         let dir = concat!(env!("CARGO_MANIFEST_DIR"), "/../../corpus/C36");
         let mut files: Vec<std::path::PathBuf> = std::fs::read_dir(dir).map(|d| d.filter_map(|e| e.ok().map(|e| e.path())).collect()).unwrap_or_default();
         files.sort();
-        for f in files.iter().filter(|f| f.extension().map(|x| x == "json").unwrap_or(false)) {
+        for f in files.iter().filter(|f| !only_random && f.extension().map(|x| x == "json").unwrap_or(false)) {
             let v: Json = serde_json::from_str(&std::fs::read_to_string(f).unwrap()).unwrap();
             let ops: Vec<String> = v["input"]["ops"].as_array().expect("corpus input.ops").iter().map(|x| x.as_str().unwrap().to_string()).collect();
             histories.push(("corpus".into(), ops));
@@ -1502,12 +1803,17 @@ fn main() {
         rep.count(&format!("history:{kind}"));
         rep.count_n("presentations", out.presentations);
         rep.count_n("sessions-revoked-by-credential-removal", out.cred_removed_revoked);
+        rep.count_n("sessions-revoked-in-multi-entry-operations", out.multi_revoked);
         rep.count_n("oauth2-sessions-swept", out.o2_swept);
         rep.count_n("oauth2-refused-orphan-past-grace", out.o2_refused_orphan);
         rep.count_n("oauth2-accepted-past-grace", out.accepted_o2_past_grace);
         rep.count_n("uat-accepted-past-grace", out.accepted_uat_past_grace);
         for (k, v) in &out.hist {
             rep.count_n(k, *v);
+        }
+        if out.hist.contains_key("multi-entry:sessions-revoked-after-a-session-less-candidate") {
+            // the situation a per-candidate early exit of the plugin would get wrong
+            rep.count(&format!("histories-reaching-multi-entry-boundary:{}", if kind == "random" { "random" } else { "scripted" }));
         }
         let nontrivial = out.cred_removed_revoked >= 1 && (out.o2_swept >= 1 || out.o2_refused_orphan >= 1);
         rep.case(if nontrivial { Some(ops.join(";")) } else { None });
@@ -1522,16 +1828,19 @@ fn main() {
             if !seen.insert((kind_.clone(), class_.clone())) {
                 continue;
             }
+            // an oracle failure is shrunk towards the same clause of the oracle (same opening words of
+            // `expected`), not towards any other unclassified failure
+            let tag: String = if kind_ == "impl-vs-oracle" { f.expected.chars().take(40).collect() } else { String::new() };
             let small = if args.replay.is_some() {
                 ops.clone()
             } else {
                 shrink_list(ops.clone(), |cand| {
                     let o = rt.block_on(run_history(&mut drv, cand));
-                    o.failures.iter().any(|g| g.kind == kind_ && g.class == class_)
+                    o.failures.iter().any(|g| g.kind == kind_ && g.class == class_ && g.expected.starts_with(&tag))
                 })
             };
             let o = rt.block_on(run_history(&mut drv, &small));
-            match o.failures.into_iter().find(|g| g.kind == kind_ && g.class == class_) {
+            match o.failures.into_iter().find(|g| g.kind == kind_ && g.class == class_ && g.expected.starts_with(&tag)) {
                 Some(g) => rep.fail(g),
                 None => rep.fail(f),
             }
